@@ -420,10 +420,39 @@ def bootinfo_case(ctx, tmpdir):
                 pvd_ext, file_ext, ln = struct.unpack_from('<LLL', got, 8)
                 if pvd_ext != 16 or ln != n:
                     ctx.violation('C16.bootinfo/table', 'boot info table says pvd %d, length %d for a %d-byte file (%s)' % (pvd_ext, ln, n, stage), rp)
+
+    def stream_check(obj, stage):
+        # the file-like object must show the same bytes as the extraction: whole, and in pieces around the table
+        want = io.BytesIO()
+        try:
+            obj.get_file_from_iso_fp(want, iso_path='/BOOT.;1')
+        except Exception:  # noqa (reported by check)
+            return
+        want = want.getvalue()
+        try:
+            with obj.open_file_from_iso(iso_path='/BOOT.;1') as f:
+                whole = f.read()
+                f.seek(0)
+                cut = rng.choice([1, 7, 8, 9, 20, 63, 64, 65])
+                pieces = f.read(cut) + f.read(3) + f.read()
+                f.seek(rng.choice([0, 5, 8, 10, 60, 64]))
+                pos = f.tell()
+                buf = bytearray(30)
+                k = f.readinto(buf)
+                part = bytes(buf[:k])
+        except Exception as e:  # noqa
+            ctx.violation('C16.bootinfo/stream-raises', 'open_file_from_iso of a boot-info-table file (%d bytes, %s) raised %r' % (n, stage, e), rp)
+            return
+        ctx.count(key=('bootinfo-stream', stage, n, cut, pos), nontrivial=True, kind='bootinfo-stream:' + stage)
+        if whole != want or pieces != want or part != want[pos:pos + 30]:
+            ctx.violation('C16.bootinfo/stream-differs', 'open_file_from_iso reads other bytes than get_file_from_iso_fp for a boot-info-table file (%d bytes, %s): %s' % (
+                n, stage, 'whole' if whole != want else ('pieces' if pieces != want else 'readinto at %d' % pos)), rp)
     check(iso, 'unwritten', None)
+    stream_check(iso, 'unwritten')
     path = os.path.join(tmpdir, 'b.iso')
     iso.write(path)
     check(iso, 'after-write', None)
+    stream_check(iso, 'after-write')
     iso.close()
     iso2 = pycdlib.PyCdlib()
     iso2.open(path)
@@ -432,6 +461,11 @@ def bootinfo_case(ctx, tmpdir):
         f.seek(rec.extent_location() * 2048)
         raw = f.read(n)
     check(iso2, 'written', raw)
+    stream_check(iso2, 'written')
+    # an edit moves the boot file: both ways of reading must show the table of the new layout
+    iso2.add_directory('/NEWDIR')
+    check(iso2, 'reopened-edited', None)
+    stream_check(iso2, 'reopened-edited')
     iso2.close()
     os.unlink(path)
 
